@@ -37,7 +37,10 @@ static inline SyncReceiveBuffer *iora_srb(SyncReceiveBuffer *b)
 { IORA_ASSERT(b->guard->held, "LK3 SyncReceiveBuffer field accessed with syncMutex held"); return b; }
 
 /* struct Impl::SyncConnectOp (+ ghost guard); `result` as iora_result */
-typedef struct { iora_cv cv; bool done; iora_result result; const iora_mutex *guard; } SyncConnectOp;
+/* `abandoned`: HISTORY variable of the monitor reasoning for C04 - "the connectSync caller that registered this record has taken its
+ * timeout path (it no longer looks at done/result and has issued, or is about to issue, engine->close(sid))". The source has no such
+ * member today (the field is then written only by the harnesses); a repair may introduce one (units/sync_connect/NOTES.md). */
+typedef struct { iora_cv cv; bool done; iora_result result; bool abandoned; const iora_mutex *guard; } SyncConnectOp;
 static inline SyncConnectOp *iora_sco(SyncConnectOp *o)
 { IORA_ASSERT(o->guard->held, "LK3 SyncConnectOp field accessed with syncMutex held"); return o; }
 
